@@ -220,51 +220,35 @@ def check_aliasing(chk):
 
 
 def check_type_strictness(chk):
+    """C15.T by abstract execution (E6l): value_args_validate applied to a one-parameter model of each declared type and one argument of each host type atom"""
+    from .. import libsim
+    from ..absint import ADict, AList, Sym
     vmod = chk.repo.module('value')
     func = vmod.func('value_args_validate', 'C15.T')
-    # the invalid-value test: an If that raises ValueArgsError and whose test mentions isinstance / callable of the argument value
-    cands = []
-    for n in walk_no_nested(func):
-        if isinstance(n, ast.If) and any(isinstance(s, ast.Raise) for s in n.body):
-            t = norm(n.test)
-            if ('isinstance(' in t or 'callable(' in t) and 'nullable' not in t and "'integer'" not in t and "get('lt')" not in t:
-                cands.append(n)
-    if len(cands) != 1:
-        cands = [n for n in walk_no_nested(func) if isinstance(n, ast.If) and any(isinstance(s, ast.Raise) for s in n.body) and 'callable(' in norm(n.test)]
-    if len(cands) != 1:
-        raise Unrecognised('C15.T', f'{len(cands)} candidate type tests found in value_args_validate', vmod.rel)
-    from .c03 import inline
-    defs = {}
-    for n in walk_no_nested(func):
-        if isinstance(n, ast.Assign) and len(n.targets) == 1 and isinstance(n.targets[0], ast.Name):
-            defs[n.targets[0].id] = None if n.targets[0].id in defs else n.value
-    keep = {k: v for k, v in defs.items() if v is not None and isinstance(v, ast.Call) and isinstance(v.func, ast.Attribute) and v.func.attr == 'get'
-            and isinstance(v.func.value, ast.Name) and v.func.value.id in vmod.assigns}
-    test = inline(cands[0].test, keep)
-    names = {n.id for n in ast.walk(test) if isinstance(n, ast.Name)}
-    type_var = next((v for v in names if v.endswith('type')), None)
-    val_var = next((v for v in names if v.endswith('value') and v != type_var), None)
-    if not type_var or not val_var:
-        raise Unrecognised('C15.T', 'type / value variables of the type test not identified', vmod.rel)
+    it = libsim.LibInterp(chk.repo, vmod, 'C15.T')
+    it.oracles['value_boolean'] = lambda args, node: True
     for ty, want in TYPE_ATOMS.items():
         accepted = set()
         for atom in ATOMS:
             if atom == 'None':
                 continue
-            ev = AtomEval(chk.repo, vmod, {val_var: atom}, consts={type_var: ty})
+            model = AList([ADict({'name': 'x', 'type': ty})])
+            args = AList([Sym('val', f'{atom}-value', True, atom)])
             try:
-                invalid = ev.test(test)
-            except Unknown as exc:
-                raise Unrecognised('C15.T', f'type test not evaluable for ({ty}, {atom}): {exc}', vmod.rel)
-            if not invalid:
+                got = it.run(func, [model, args])
+            except libsim.HostOrdering as ho:
+                raise Unrecognised('C15.T', f'type test for ({ty}, {atom}) orders / compares the opaque value', vmod.rel)
+            if got[0] == 'value':
                 accepted.add(atom)
+            elif got[1] != 'ValueArgsError':
+                chk.bad('C15.T', vmod, 'value_args_validate', f"'{ty}' x {atom}: {got[1]}", f"validating a {atom} value against a parameter declared '{ty}' raises the host exception {got[1]}{got[2]!r}", node=func)
         if accepted == want:
-            chk.ok('C15.T', f"argument type '{ty}' accepts exactly {sorted(want)}")
+            chk.ok('C15.T', f"argument type '{ty}' accepts exactly {sorted(want)} (12 host type atoms tried)", count=12)
         else:
             extra, missing = accepted - want, want - accepted
             chk.bad('C15.T', vmod, 'value_args_validate', f"'{ty}': accepts {sorted(extra)} rejects {sorted(missing)}",
                     f"a parameter declared '{ty}' " + (f"accepts host values of kind {sorted(extra)} (e.g. true where a number is expected: arrayGet(a, true) returns a[1] instead of the failure value)" if extra else '')
-                    + (f" rejects {sorted(missing)}" if missing else ''), node=test)
+                    + (f" rejects {sorted(missing)}" if missing else ''), node=func)
 
 
 def _hand_written_escape(chk, lf, ret):
@@ -396,7 +380,7 @@ def run(chk):
     chk.rule('C15.M', 'validate (and every failure exit) before mutating an argument', floor=10)
     chk.rule('C15.B', 'index-taking array / string functions agree with the reference sequence model on every index (abstract execution, E6l)', floor=1000)
     chk.rule('C15.A', 'aliasing contract: return-the-argument vs return-a-fresh-container', floor=18)
-    chk.rule('C15.T', 'argument type test accepts exactly the atoms of the declared BareScript type', floor=7)
+    chk.rule('C15.T', 'argument type test accepts exactly the atoms of the declared BareScript type (abstract execution of value_args_validate)', floor=84)
     chk.rule('C15.H', 'thin wrappers return / perform exactly the host operation (reference model by construction)', floor=20)
     chk.rule('C15.D', 'optional arguments defaulted by `is None`, never by `or`', floor=4)
     chk.assumptions += ['host list / dict / str operations are the reference sequence / map / string model; value_args_validate is applied first (C15.M)']
